@@ -53,7 +53,7 @@ type spyStore struct {
 
 func (s *spyStore) do(ctx context.Context, op, sid string, arg map[string]any, run func() (map[string]any, error)) error {
 	d := s.d
-	g := d.arrive("store", map[string]any{"op": op, "check": ctx.Value(checkKey{})})
+	g := d.arrive("store", map[string]any{"op": op, "check": d.checkOf(ctx)})
 	if d.parallel && g.check == d.orphan {
 		// truly parallel flows attribute a store call by its context; a call made on a detached context (a write that must
 		// outlive the request) is attributed to the check in flight that presented this session id, and not logged if none did
@@ -165,7 +165,7 @@ func (s *spyStore) GetTokenResponse(ctx context.Context, sid string) (out *oidc.
 		var e error
 		out, e = s.real.GetTokenResponse(ctx, sid)
 		if out != nil && out.RefreshToken != "" && s.d.parallel {
-			if c, ok := ctx.Value(checkKey{}).(*checkRun); ok {
+			if c, ok := s.d.checkOf(ctx).(*checkRun); ok {
 				s.d.big.Lock()
 				s.d.rtReader[out.RefreshToken] = c
 				s.d.big.Unlock()
@@ -219,7 +219,7 @@ type spyJWKS struct {
 
 func (j *spyJWKS) Get(ctx context.Context, cfg *oidcv1.OIDCConfig) (jwk.Set, error) {
 	d := j.d
-	g := d.arrive("jwks", map[string]any{"check": ctx.Value(checkKey{})})
+	g := d.arrive("jwks", map[string]any{"check": d.checkOf(ctx)})
 	if d.parallel && g.check == d.orphan {
 		// the refresh path validates with context.Background(): the lookup cannot be attributed; it is not logged
 		return j.real.Get(ctx, cfg)
